@@ -3,7 +3,7 @@
    real get_string_width; each step consumes one observation after an Append (the width of
    the text so far, in 1/64 px, by font number and by font name) and the end state carries the
    unit conversions, the size-scaling pair and the outcome of unsupported arguments.
-   All numbers are integers: widths in 1/64 px, sizes in half points, errors in ulps. *)
+   All numbers are integers: widths in 1/64 px, sizes in quarter points, errors in ulps. *)
 EXTENDS Naturals, Integers, Sequences, FiniteSets, TLC, Json, IOUtils
 CONSTANT Judge
 All == JsonDeserialize(IOEnv.TRACE_FILE)
@@ -18,7 +18,7 @@ C20_Monotone(x, ev, pos) == (pos <= Len(ev) /\ pos > 1) => ev[pos].w64 >= ev[pos
 C20_ByName(x, ev, pos) == pos <= Len(ev) => ev[pos].w64 = ev[pos].w64name
 C20_Exact64(x, ev, pos) == pos <= Len(ev) => ev[pos].exact          \* the logged integer is exact (no rounding happened)
 C20_Mono(x, ev, pos) == (pos <= Len(ev) /\ x.font = 9) => ev[pos].w64 = ev[pos].n * x.adv64
-\* 100 |w(s2) s1 - w(s1) s2| <= w(s1) s2    (sizes in half points, widths of the full text)
+\* 100 |w(s2) s1 - w(s1) s2| <= w(s1) s2    (sizes in quarter points, widths of the full text)
 C20_Scale(x, ev, pos) == (pos = Len(ev) + 1 /\ x.outcome = "ok") =>
    100 * Abs(x.w2 * x.s1 - x.w1 * x.s2) <= x.w1 * x.s2
 \* the same allowing for the 1/64 px rounding of every glyph advance (n glyphs: each width is off
